@@ -25,22 +25,22 @@ Definition client_disclosure (r : realm) (p : N) (ps : session) (opts : dict) (a
 Definition pub_src (s : session) (m : cmsg) : option (N * session * dict * list value * dict) :=
   match m with CPublish _ opts _ args kw => Some (s_id s, s, opts, args, kw) | _ => None end.
 
-Definition ev_step (r : realm) (src : option (N * session * dict * list value * dict)) (o : list out) : Prop :=
+Definition ev_step (r rf : realm) (src : option (N * session * dict * list value * dict)) (o : list out) : Prop :=
   forall y sub pid det a k, In (y, REvent sub pid det a k) o -> pub_keys det = true ->
     (exists p ps opts args kw, src = Some (p, ps, opts, args, kw) /\ client_disclosure r p ps opts args kw y det a k) \/
-    meta_disclosure r y det a k.
+    meta_disclosure r rf y det a k.
 
-Lemma ev_step_meta : forall r src o, ev_meta r o -> ev_step r src o.
-Proof. intros r src o H y sub pid det a k Hin Hk. right. eauto. Qed.
-Lemma ev_step_app : forall r src a b, ev_step r src a -> ev_step r src b -> ev_step r src (a ++ b).
-Proof. intros r src a b A B y sub pid det a0 k H. apply in_app_or in H. destruct H; eauto. Qed.
-Lemma ev_step_noev : forall r src o, noev o -> ev_step r src o.
+Lemma ev_step_meta : forall r rf src o, ev_meta r rf o -> ev_step r rf src o.
+Proof. intros r rf src o H y sub pid det a k Hin Hk. right. eauto. Qed.
+Lemma ev_step_app : forall r rf src a b, ev_step r rf src a -> ev_step r rf src b -> ev_step r rf src (a ++ b).
+Proof. intros r rf src a b A B y sub pid det a0 k H. apply in_app_or in H. destruct H; eauto. Qed.
+Lemma ev_step_noev : forall r rf src o, noev o -> ev_step r rf src o.
 Proof. intros. apply ev_step_meta, ev_meta_plain, noev_plain. assumption. Qed.
-Lemma ev_step_plain : forall r src o, ev_plain o -> ev_step r src o.
+Lemma ev_step_plain : forall r rf src o, ev_plain o -> ev_step r rf src o.
 Proof. intros. apply ev_step_meta, ev_meta_plain. assumption. Qed.
-Lemma ev_step_cons : forall r src m o, is_ev m = false -> ev_step r src o -> ev_step r src (m :: o).
+Lemma ev_step_cons : forall r rf src m o, is_ev m = false -> ev_step r rf src o -> ev_step r rf src (m :: o).
 Proof.
-  intros r src m o A B. change (m :: o) with ([m] ++ o). apply ev_step_app; [|exact B].
+  intros r rf src m o A B. change (m :: o) with ([m] ++ o). apply ev_step_app; [|exact B].
   apply ev_step_noev. now apply noev_one.
 Qed.
 
@@ -57,27 +57,27 @@ Qed.
 (** ** One client message *)
 Theorem handle_ev : forall r s m oracle,
     realm_wf r -> meta_fixed r -> find_session (r_clients r) (s_id s) = Some s ->
-    ev_step r (pub_src s m) (snd (handle r s m oracle)).
+    ev_step r (fst (handle r s m oracle)) (pub_src s m) (snd (handle r s m oracle)).
 Proof.
   intros r s m oracle W M Hs.
   pose proof (rw_dealer r W) as Wd.
   pose proof (sub_st_refl r M) as S0.
-  assert (Lv : forall r0 src, sub_st r r0 -> ev_step r src (snd (leave r0 (s_id s)))).
+  assert (Lv : forall r0 src, sub_st r r0 -> ev_step r (fst (leave r0 (s_id s))) src (snd (leave r0 (s_id s)))).
   { intros r0 src S. apply ev_step_meta. apply (leave_ev r r0 (s_id s) S). }
   destruct m; cbn [handle pub_src].
   - (* PUBLISH *)
-    assert (P : ev_step r (Some (s_id s, s, opts, args, kw))
+    assert (P : forall rf, ev_step r rf (Some (s_id s, s, opts, args, kw))
                         (snd (publish (r_cfg r) (lookup r) (r_now r) (r_broker r) (r_pubgen r) s req opts topic args kw))).
-    { intros y sub pid det a k Hin Hk. left. exists (s_id s), s, opts, args, kw. split; [reflexivity|].
+    { intros rf y sub pid det a k Hin Hk. left. exists (s_id s), s, opts, args, kw. split; [reflexivity|].
       destruct (publish_ev _ _ _ _ _ _ _ _ _ _ _ _ _ _ _ _ _ Hin) as (-> & -> & Q).
       destruct (Q Hk) as (Hc & Hd & r0 & rs & Hl & Hy & Hf & D1 & D2 & D3).
       pose proof (meta_fixed_lookup_ok r M r0 rs Hl) as Er0. rewrite <- Hy in Er0. subst r0.
       split; [exact Hc|]. split; [exists rs; split; [apply recv_is_client; assumption|exact Hf]|].
       repeat split; assumption. }
     destruct (publish _ _ _ _ _ _ _ _ _ _ _) as [[b pg] o]. cbn [snd] in P.
-    destruct (publish_aborts _ _ _ _); [|exact P].
+    destruct (publish_aborts _ _ _ _); [|apply P].
     specialize (Lv r (Some (s_id s, s, opts, args, kw)) S0). destruct (leave r (s_id s)) as [r1 o1]. cbn [fst snd] in *.
-    now apply ev_step_app.
+    apply ev_step_app; [apply P|exact Lv].
   - (* SUBSCRIBE *)
     pose proof (subscribe_plain (r_cfg r) (r_broker r) (r_pubgen r) (s_id s) req opts topic) as P.
     destruct (subscribe _ _ _ _ _ _ _) as [[b pg] o]. cbn [fst snd] in *. now apply ev_step_plain.
@@ -143,7 +143,7 @@ Theorem step_ev : forall r o,
           o = OMsg p m orc /\ find_session (r_clients r) p = Some ps /\
           gate r ps m = inl (CPublish req opts topic args kw) /\
           client_disclosure r p ps opts args kw y det a k) \/
-      meta_disclosure r y det a k.
+      meta_disclosure r (fst (step r o)) y det a k.
 Proof.
   intros r o W M y sub pid det a k.
   destruct o as [sid lc h|sid m oracle|sid|ms].
